@@ -17,8 +17,8 @@ RULE = (
     "with bubble point > 50 psia, swept from 15 psia to 2.5 p_b. Non-trivial = bubble point > 50 "
     "and both ladders (below / above) have >= 10 points; distinct = descriptor hash."
 )
-MIN_NONTRIVIAL = {"quick": 300, "thorough": 6000}
-SHARDS = {"quick": 1, "thorough": 8}
+MIN_NONTRIVIAL = {"quick": 300, "thorough": 30000}
+SHARDS = {"quick": 1, "thorough": 16}
 GENERATOR = {"oil": "uniform T, API, gg; log-uniform GOR; 15 % rounded to integers", "ladder": "40 points each side"}
 ASSUMPTIONS = ["continuity tolerance 1e-7 relative across p_b(1 -/+ 1e-9); ordering judged on the sampled ladders"]
 REACH = None
@@ -41,7 +41,7 @@ def setup(ck):
 
 def generate(ck):
     rng = ck.rng
-    n = 400 if ck.tier == "quick" else 8000
+    n = 400 if ck.tier == "quick" else 40000
     descs = [{"oil": [200.0, 35.0, 0.8, 650.0]}, {"oil": [80.0, 12.0, 1.3, 20.0 * 3]}, {"oil": [350.0, 55.0, 0.56, 2500.0]}]
     for _ in range(n):
         descs.append({"oil": wl.oil_params(rng)})
